@@ -1,13 +1,13 @@
 package main
 
 import (
-	"time"
 	"crypto/sha256"
 	"encoding/json"
 	"fmt"
 	"os"
 	"sort"
 	"strings"
+	"time"
 )
 
 // Failure is one thing that went wrong in a run.
